@@ -248,6 +248,7 @@ example : rrSeq 3 3 7 = [0, 1, 2] := by decide
 example : rrSeq 4 4 1 = [2, 3, 0, 1] := by decide
 example : chooseCustom (fun _ _ => 2 ^ 64 - 1) 5 3 = 0 := by decide
 
+
 /-! ### Translator tie (rs2lean): kernel-checked equivalence between the definitions that
 `extract/rs2lean.py` regenerates from the CURRENT Rust source on every run
 (`RactorModel/Generated/*.lean`) and the hand-written model functions the theorems above are
@@ -312,6 +313,51 @@ theorem generated_custom_choice_eq_model (sip : Option Nat → Nat)
     first | rfl | (split <;> simp_all)
 end XlateTie
 
+section XlateTieQ
+open Generated.Routing GenRouting
+
+/-- queuer router: the early-return prefix (an available hinted worker) is the model's; when the
+prefix falls through the model continues with `popAvail` (the `while let` loop, not translated). -/
+theorem generated_queuer_prefix_eq_model (sip : Option Nat → Nat) (h : Nat → Nat → Nat)
+    (w : Factory.W) (j : Factory.Job) (hint : Option Nat) (hr : w.cfg.router = .q) :
+    w.chooseTargetWorker j hint =
+      match QueuerRouting.choose_before_deque sip h ⟨⟩ j w.poolSize hint w.pool with
+      | some r => (r, w)
+      | none =>
+        let (r, avail, inQ) := Factory.popAvail w.pool w.avail w.inQ
+        (r, { w with avail := avail, inQ := inQ }) := by
+  unfold QueuerRouting.choose_before_deque Factory.W.chooseTargetWorker
+  simp only [hr, hintAvailable_eq]
+  cases hb : Option.bind hint (fun x => Factory.getW w.pool x) with
+  | none => simp
+  | some p => cases ha : p.isAvailable <;> simp [ha]
+
+/-- sticky queuer router: hinted worker processing the key, else any worker processing the key
+(first in pool order), else an available hinted worker, else the deque loop (`popAvail`). -/
+theorem generated_sticky_queuer_prefix_eq_model (sip : Option Nat → Nat) (h : Nat → Nat → Nat)
+    (w : Factory.W) (j : Factory.Job) (hint : Option Nat) (hr : w.cfg.router = .sq) :
+    w.chooseTargetWorker j hint =
+      match StickyQueuerRouting.choose_before_deque sip h ⟨⟩ j w.poolSize hint w.pool with
+      | some r => (r, w)
+      | none =>
+        let (r, avail, inQ) := Factory.popAvail w.pool w.avail w.inQ
+        (r, { w with avail := avail, inQ := inQ }) := by
+  unfold StickyQueuerRouting.choose_before_deque Factory.W.chooseTargetWorker
+  simp only [hr, hintAvailable_eq, hintProcessing_eq]
+  have hfind := find_pairs w.pool (fun x => x.isProcessingKey j.key)
+  cases hb : Option.bind hint (fun x => Factory.getW w.pool x) with
+  | none =>
+    simp only [hfind]
+    cases hf : w.pool.find? (fun x => x.isProcessingKey j.key) <;> simp
+  | some p =>
+    cases hp : p.isProcessingKey j.key
+    · simp only [hfind, hp]
+      cases hf : w.pool.find? (fun x => x.isProcessingKey j.key)
+      · by_cases ha : p.isAvailable = true <;> simp [ha]
+      · simp
+    · simp [hp]
+end XlateTieQ
+
 end C14
 
 #print axioms C14.custom_in_range
@@ -334,3 +380,5 @@ end C14
 #print axioms C14.generated_key_persistent_choice_eq_model
 #print axioms C14.generated_round_robin_choice_eq_model
 #print axioms C14.generated_custom_choice_eq_model
+#print axioms C14.generated_queuer_prefix_eq_model
+#print axioms C14.generated_sticky_queuer_prefix_eq_model
